@@ -163,6 +163,7 @@ impl Prop for C06 {
 			big_blobs: true,
 			min_width_one: false,
 			push_ops: true,
+			scale: 2,
 		};
 		if run % 2 == 0 {
 			return Scn {
@@ -176,16 +177,15 @@ impl Prop for C06 {
 				apache: true,
 			};
 		}
-		let schema = container::gen_schema_for(rng, &profile);
+		let (schema, scale) = container::gen_schema_maybe_scale(rng, &profile);
 		let env = Env::build(&schema);
 		let vcfg = ValCfg {
 			max_len: 1 + rng.usize(8),
 			max_depth: 4,
 			budget: 6 + rng.below(40) as i32,
 			// reference-written blocks above the decoders' and the BufReader's buffer sizes
-			str_boost: if rng.chance(1, 30) { *rng.pick(&[9000usize, 40000]) } else { 0 },
-		};
-		let n = rng.usize(10);
+			str_boost: if rng.chance(1, 30) { *rng.pick(&[9000usize, 40000]) } else { 0 }, scale: None }.with_scale(scale);
+		let n = if scale.is_some() { rng.usize(4) } else { rng.usize(10) };
 		let values: Vec<Val> = (0..n).map(|_| val::gen_val(rng, &env, &schema, &vcfg)).collect();
 		let codec = container::gen_codec(rng, true);
 		let opts = WriteOpts {
@@ -226,6 +226,7 @@ impl Prop for C06 {
 		let mut out = Outcome::default();
 		match &scn.dir {
 			Dir::A(spec) => {
+				container::count_scale(spec, &mut out);
 				let Some((file, model)) = write_clean(spec, "C06", &mut out) else {
 					return out;
 				};
